@@ -135,14 +135,16 @@ func pathString(nodes []node) string {
 		// Nodes without a consumer (e.g., explicit annotations) print no position, so two flows
 		// that start at different annotated sites would otherwise be indistinguishable. Include
 		// the producer position to keep such flows apart.
+		// (The two positions are tagged: a node with only the one must not read like a node with only
+		// the other at the same place.)
 		if !n.consumerPosition.IsValid() && n.producerPosition.IsValid() {
-			path += "@" + n.producerPosition.String()
+			path += "@producer:" + n.producerPosition.String()
 		}
 		// The printed positions are shortened to the last directory and the file name by default,
 		// so nodes in two files such as `x/util/u.go` and `y/util/u.go` print the same. Include the
 		// complete position to keep flows from different nil sources apart.
 		if n.sitePosition.IsValid() {
-			path += "@" + n.sitePosition.String()
+			path += "@site:" + n.sitePosition.String()
 		}
 	}
 	return path
